@@ -7,7 +7,8 @@
 (* offered row filters lose data; Scoped / ColumnsComplete are judged once. *)
 (* Families: predicates of every shape up to the depth bound in where /    *)
 (* join conditions, negations of compound predicates (depth 3), self joins *)
-(* through references, nested statements, three tables.                    *)
+(* through references, nested statements, three tables, aggregating        *)
+(* queries (having with and without a groupby).                            *)
 (* The verdict of every statement is exported (invariant Export); clauses  *)
 (* violated by the as-is model are design-level findings which the driver  *)
 (* replays on the real parser (TraceHints.tla judges the recorded hints).   *)
@@ -42,6 +43,7 @@ Preds(atoms, d) ==
          sub \cup {Op("not", <<a>>) : a \in sub}
              \cup {Op(o, <<a, b>>) : o \in {"and", "or"}, a \in sub, b \in sub}
 Eq(a, b) == Op("eq", <<a, b>>)
+AggOf(o, x) == Feat("agg", NilS, "", "", "", o, <<x>>)
 Lt(a, b) == Op("lt", <<a, b>>)
 AtomsAB == {Eq(Ax, L1), Eq(Bx, L1), Eq(Ax, Bx), Lt(Ax, Bx), Op("isnull", <<Bx>>), Eq(Ay, L0)}
 AtomsSmall == {Eq(Ax, L1), Eq(Bx, L1), Lt(Ax, Bx)}
@@ -91,6 +93,14 @@ Stmts ==
                        {SelWhere(JoinOf(s1, s2, "inner", Lt(Col(s1, "x"), Col(s2, "x"))), <<Col(s1, "y"), Col(s2, "y")>>, NilF),
                         SelWhere(JoinOf(s1, TA, "inner", Lt(Col(s1, "x"), Ax)), <<Col(s1, "y"), Ay>>, w2)} :
                        w1 \in {Eq(Ax, L1), Eq(Ay, L0)}, w2 \in {NilF, Eq(Ay, L0), Eq(Ax, L1)}}
+      [] Family = "having" ->      \* aggregating queries with every combination of presence of where / groupby / having /
+                                   \* orderby (without a groupby the whole input is one group); the having clause uses a
+                                   \* column no other clause of the query context uses
+           {q \in {QueryOf(l, (IF grp = <<>> THEN <<>> ELSE <<Ax>>) \o <<AggOf("count", Ax)>>, w, grp, h, ord, <<>>) :
+                      l \in {TA, JoinOf(TA, TB, "inner", Lt(Ax, Bx)), JoinOf(TA, TB, "left", Lt(Ax, Bx))},
+                      w \in {NilF, Eq(Ax, L1)}, grp \in {<<>>, <<Ax>>},
+                      h \in {NilF, Op("gt", <<AggOf("sum", Ay), L0>>), Eq(AggOf("count", Bx), L1)},
+                      ord \in {<<>>, <<[x |-> AggOf("count", Ax), dir |-> "descending"]>>}} : WellFormed(q)}
       [] Family = "three" ->       \* joins of three tables, conditions and where spanning them
            {Where(JoinOf(JoinOf(TA, TB, k1, c1), TC, k2, c2), w) :
                 k1 \in {"inner", "left"}, k2 \in {"inner", "left", "right"},
